@@ -47,7 +47,13 @@ def generate(seed, tier):
                        'truncated', 'unknown_type', 'trailing_garbage', 'len_over_end', 'len_zero_end', 'magic_end',
                        'len_magic_alphabet', 'len_magic_alphabet', 'double_magic', 'len_near_2_32', 'len_near_2_32',
                        'len_too_short', 'len_too_short', 'len_too_long_by_little'])
+    if rng.random() < 0.03:
+        # a block of exactly the maximum size (the largest frame honest traffic contains)
+        msgs.insert(rng.randrange(len(msgs) + 1), {'kind': 'data_block_max', 'a': 1, 'n': 0})
     through_node = rng.random() < 0.3
+    if through_node and rng.random() < 0.08:
+        msgs = [{'kind': 'hello', 'a': rng.randrange(1000), 'n': 0}, {'kind': 'burst_getpeers', 'a': rng.randrange(1000), 'n': rng.randrange(0, 4)}]
+        tail = None
     if through_node:
         # streams that cross the node's 1024-byte reads, and legal messages the handlers do not serve
         if rng.random() < 0.6:
@@ -82,6 +88,37 @@ def ref_frames(stream: bytes, decodable):
         pos += 8 + ln
 
 
+_MAXBLK = {}
+
+
+def _max_size_block():
+    """A block of exactly MAX_BLOCK_SIZE bytes (the size limit is inclusive): a reward paid out over very many outputs."""
+    if 'b' in _MAXBLK:
+        return _MAXBLK['b']
+    from skepticoin.datatypes import Block, BlockHeader, BlockSummary, PowEvidence, Transaction, Input, Output, OutputReference
+    from skepticoin.signing import CoinbaseData
+    from skepticoin.params import MAX_BLOCK_SIZE
+    from world import ledger as W
+
+    def make(n_out, data_len):
+        cb = Transaction([Input(OutputReference(b'\x00' * 32, 0), CoinbaseData(7, b'p' * data_len))],
+                         [Output(1 + j, W.key(j % 12).pk) for j in range(n_out)])
+        summ = BlockSummary(7, b'\x11' * 32, b'\x22' * 32, 1_700_000_000, b'\xff' * 32, 0)
+        return Block(BlockHeader(summ, PowEvidence(b'\x01' * 32, b'\x02' * 32, b'\x03' * 32)), [cb])
+    one = len(make(2, 0).serialize()) - len(make(1, 0).serialize())
+    n_out = (MAX_BLOCK_SIZE - len(make(1, 0).serialize())) // one
+    blk = make(n_out, 0)
+    while len(blk.serialize()) > MAX_BLOCK_SIZE:
+        n_out -= 1
+        blk = make(n_out, 0)
+    pad = MAX_BLOCK_SIZE - len(blk.serialize())
+    if 0 < pad <= 200:
+        blk = make(n_out, pad)
+    _MAXBLK['b'] = blk
+    _MAXBLK['size'] = len(blk.serialize())
+    return blk
+
+
 def build_stream(script):
     from ipaddress import IPv6Address
     from skepticoin.networking import messages as M
@@ -101,6 +138,15 @@ def build_stream(script):
         elif k == 'getdata_unserved':
             # legal requests this version does not serve (transaction / header by id)
             msg = M.GetDataMessage(M.DATA_TRANSACTION if a % 2 else M.DATA_HEADER, bytes([a % 256]) * 32)
+        elif k == 'burst_getpeers':
+            # very many minimal frames in one stream (about 64 bytes each)
+            for j in range(1000 + n * 40):
+                h_ = M.MessageHeader(1_700_000_000 + i, 5000 + j, 0, a)
+                d_ = h_.serialize() + M.GetPeersMessage().serialize()
+                frames.append(MAGIC + struct.pack('>I', len(d_)) + d_)
+            continue
+        elif k == 'data_block_max':
+            msg = M.DataMessage(M.DATA_BLOCK, _max_size_block())
         elif k == 'peers_mid':
             msg = M.PeersMessage([M.Peer(a + j, IPv6Address('::ffff:10.2.%d.%d' % (j % 250, a % 250)), 2412) for j in range(40 + n * 25)])
         elif k == 'inv':
@@ -305,9 +351,11 @@ def execute(script):
         return out
 
     ok = check(in_1024([]), 'whole')
-    if ok:
+    if ok and n <= 100_000:
         ok = check(range(1, n), 'byte-by-byte')
         res.bump('byte_by_byte')
+    if n > 100_000:
+        res.bump('probe:stream_with_a_maximum_size_block')
     rng = random.Random(script['config'].get('cuts_seed', 0))
     if ok:
         for _ in range(40):
